@@ -15,16 +15,17 @@ static void handle(const char *op, struct arg *a, int n, FILE *out) {
 		if (r == -1) fputs("NONE", out);
 		else { fputs("OK ", out); puthex(out, t, (size_t)r); }
 		free(t);
-	} else if (strcmp(op, "qp") == 0) {
+	} else if (strcmp(op, "qp") == 0 || strcmp(op, "qprfc") == 0) {
+		/* qprfc, qphrfc, r2047rfc: the same entry points, compared with the RFC readings (Spec/DecodeRFC.lean) */
 		char *d = quoted_printable_decode((const char *)a[0].p);
 		puthex(out, d, strlen(d)); free(d);
-	} else if (strcmp(op, "qph") == 0) {
+	} else if (strcmp(op, "qph") == 0 || strcmp(op, "qphrfc") == 0) {
 		/* the static buffer-level decoder in header mode, full length */
 		struct buffer *bf = buffer_alloc(16);
 		quoted_printable_decode_buffer(bf, (const char *)a[0].p, strlen((const char *)a[0].p), 1);
 		puthex(out, buffer_get_ptr(bf), buffer_get_len(bf));
 		buffer_free(bf);
-	} else if (strcmp(op, "r2047") == 0) {
+	} else if (strcmp(op, "r2047") == 0 || strcmp(op, "r2047rfc") == 0) {
 		char *d = rfc2047_decode((const char *)a[0].p);
 		puthex(out, d, strlen(d)); free(d);
 	} else fputs("BADOP", out);
